@@ -86,8 +86,10 @@ func (feeder *outputFeeder) Run() {
 	}
 
 	// clean up
-	close(feeder.outputChannel)
+	// signal before closing so that a consumer can tell the chunks it receives from now on are being saved by saveEverything,
+	// which takes them from the same channel, and must not be sent out of order
 	feeder.outputClosed.Signal()
+	close(feeder.outputChannel)
 	feeder.saveEverything(lastInputChunk)
 
 	// wait for consumers here because the callbacks depend on chunkMan/dir
